@@ -40,9 +40,10 @@ namespace cppcms {
 	bool parse_url_parameter(util::const_char_istream &parameter,ParamType &value)
 	{
 		parameter >> value;
-		if(!parameter || !parameter.eof())
+		if(!parameter)
 			return false;
-		return true;
+		// the whole text has to be used; types that read a fixed number of characters (char) do not set eof by themselves
+		return parameter.eof() || parameter.peek()==std::char_traits<char>::eof();
 	}
 
 
